@@ -214,9 +214,10 @@ def getCount : Count → Bytes → Option (Option Nat × Bytes)
     | none => none
     | some (n, r) => some (some n, r)
   | .varint, bs =>
+    -- Record.decode: `numHeaders > remaining` → insufficient; a negative count allocates nothing
     match getVarint bs with
     | none => none
-    | some (n, r) => some (some n.toNat, r)
+    | some (n, r) => if n > r.length then none else some (some n.toNat, r)
 
 /-- `n` elements, one after the other -/
 def decMany (d : Bytes → Option (Val × Bytes)) : Nat → Bytes → Option (List Val × Bytes)
@@ -288,14 +289,14 @@ def dec : Fmt → Nat → Bytes → Option (Val × Bytes)
       | none => none
       | some (v, r') => if ((r.length - r'.length : Nat) : Int) = n then some (v, r') else none
   | .varlen f, ver, bs =>
-    -- varintLengthField.decode: getVarint; check: curOffset − startOffset − reserveLength() = length
+    -- varintLengthField.decode: getVarint; check at pop: the bytes between the end of the varint as it was
+    -- read (`binary.Varint(buf[startOffset:])`) and the current offset are `length` many
     match getVarint bs with
     | none => none
     | some (n, r) =>
       match dec f ver r with
       | none => none
-      | some (v, r') =>
-        if ((bs.length - r'.length : Nat) : Int) - (prepVarint n : Nat) = n then some (v, r') else none
+      | some (v, r') => if ((r.length - r'.length : Nat) : Int) = n then some (v, r') else none
   | .crc p f, ver, bs =>
     match getUInt 4 bs with
     | none => none
@@ -304,13 +305,13 @@ def dec : Fmt → Nat → Bytes → Option (Val × Bytes)
       | none => none
       | some (v, r') => if crc32 p (r.take (r.length - r'.length)) = c then some (v, r') else none
 
-/-- bounds on an element count `n` whose elements take `body` bytes: the guards of `getArrayLength`
-    (count ≤ 2·MaxUint16, count ≤ remaining bytes) resp. the width of the count field -/
+/-- bounds on an element count `n` whose elements take `body` bytes: the guards of the count getters
+    (count ≤ remaining bytes everywhere, count ≤ 2·MaxUint16 for `getArrayLength`) and the width of the count field -/
 def countOK : Count → Nat → Nat → Bool
   | .i32, n, body => decide (n ≤ 131070 ∧ n ≤ body)
   | .i32null, n, body => decide (n ≤ 131070 ∧ n ≤ body)
-  | .compact, n, _ => decide (n + 1 < 2 ^ 64)
-  | .varint, n, _ => decide (n < 2 ^ 63)
+  | .compact, n, body => decide (n + 1 < 2 ^ 64 ∧ n ≤ body)
+  | .varint, n, body => decide (n < 2 ^ 63 ∧ n ≤ body)
 
 def allWT (w : Val → Bool) : List Val → Bool
   | [] => true
